@@ -4,11 +4,14 @@ ControlClient (retransmit), driven with fake transports under virtual time."""
 import array
 import asyncio
 import json
+import logging
 import os
 import struct
 
 import common
 import vloop
+
+logging.getLogger("pyatv").setLevel(logging.CRITICAL)
 
 FPP = 352
 SEQMOD = 1 << 16
@@ -40,6 +43,10 @@ def default_case(**kw):
         "close_at": None,      # audio transport reports is_closing() once this many datagrams were sent
         "stop_after_lap": None,  # stop() is called during this lap (0-based)
         "requests": [],        # [at_read_call or None (= after the stream ended), hex datagram]
+        "boundary": False,     # True: probe of a limit outside the property's domain (model tie only, no oracle)
+        "via_file": False,     # True: the source is produced by the normal path - a WAV file on disk opened with
+                               # open_source() for the format get_audio_properties() derives from the receiver's
+                               # zeroconf properties {"ch": channels, "ss": 8*ssize} (oracle only, no model)
     }
     c.update(kw)
     return c
@@ -82,7 +89,36 @@ class FakeRtsp:
         self.session_id = session_id
 
 
-async def drive(case):
+def open_via_file(case):
+    """The normal path: zeroconf properties -> get_audio_properties -> open_source(file)."""
+    import shutil
+    import tempfile
+    import wave
+    from pyatv.protocols.raop.audio_source import open_source
+    from pyatv.protocols.raop.parsers import get_audio_properties
+    sr, ch, ss = get_audio_properties({"sr": str(case["sample_rate"]), "ch": str(case["channels"]),
+                                       "ss": str(8 * case["ssize"])})
+    assert (ch, ss) == (case["channels"], case["ssize"])
+    os.makedirs(common.BUILD, exist_ok=True)
+    d = tempfile.mkdtemp(dir=common.BUILD)
+    try:
+        path = os.path.join(d, "source.wav")
+        w = wave.open(path, "wb")
+        w.setnchannels(ch)
+        w.setsampwidth(ss)
+        w.setframerate(sr)
+        w.writeframes(pattern(case["pa"], case["pb"], case["nframes"] * ch * ss))
+        w.close()
+        loop = asyncio.new_event_loop()
+        try:
+            return loop.run_until_complete(open_source(path, sr, ch, ss))
+        finally:
+            loop.close()
+    finally:
+        shutil.rmtree(d, ignore_errors=True)
+
+
+async def drive(case, prepared=None):
     """Run the real sender on one case; returns the raw observation dict."""
     import miniaudio
     from pyatv.protocols.raop import stream_client as sc
@@ -99,9 +135,13 @@ async def drive(case):
     arr = array.array(code)
     assert arr.itemsize == ss
     arr.frombytes(src_bytes)
-    decoded = miniaudio.DecodedSoundFile("verif", ch, case["sample_rate"], fmt, arr)
-    fsrc = FileSource(decoded)
-    assert fsrc.sample_size == ss and fsrc.channels == ch
+    if prepared is None:
+        decoded = miniaudio.DecodedSoundFile("verif", ch, case["sample_rate"], fmt, arr)
+        fsrc = FileSource(decoded)
+    else:
+        fsrc = prepared
+        src_bytes = bytes(fsrc.samples)
+    assert isinstance(fsrc, FileSource) and fsrc.sample_size == ss and fsrc.channels == ch
 
     ctx = StreamContext()
     ctx.sample_rate = case["sample_rate"]
@@ -201,6 +241,8 @@ async def drive(case):
 
 
 def run_case(case):
+    if case.get("via_file"):
+        return vloop.run(drive, case, open_via_file(case))
     return vloop.run(drive, case)
 
 
@@ -210,6 +252,8 @@ def oracle(case, ob):
     """The property judged directly on the datagrams the real code handed to the transports.
     Returns a list of (key, text)."""
     errs = []
+    if case.get("boundary"):
+        return errs
     fs = ob["fs"]
     ps = FPP * fs
     src = ob["src"]
@@ -222,8 +266,11 @@ def oracle(case, ob):
             errs.append(("C16:samples:odd-length-chunk",
                          "streaming a %d-frame source with %d channel(s) x %d byte(s) aborts with ValueError "
                          "(bytes length not a multiple of item size) after %d of %d data packets: the last, odd-length "
-                         "chunk is never sent" % (case["nframes"], case["channels"], case["ssize"], len(sent),
-                                                  -(-len(src) // ps))))
+                         "chunk is never sent%s" % (case["nframes"], case["channels"], case["ssize"], len(sent),
+                                                    -(-len(src) // ps),
+                                                    " [source = WAV file opened with open_source() for receiver "
+                                                    "properties ch=%d ss=%d]" % (case["channels"], 8 * case["ssize"])
+                                                    if case.get("via_file") else "")))
         else:
             errs.append(("C16:stream:raised-" + exn, "streaming raised " + exn))
     # every datagram: header constants, consecutive sequence numbers, timestamps, marker
@@ -331,9 +378,8 @@ def describe(case, ob):
         if ln % 2 or pad < 0 or pay != swap16(src[pos:pos + ln]) + bytes(pad):
             ok = False
             ln, pad = 0, 0
-        dg.append("{| o_hdr := %s; o_off := %s; o_len := %s; o_pad := %s |}" % (
-            common.cbytes(hdr), common.cN(pos), common.cN(ln), common.cN(pad)))
-        pos += ps
+        dg.append("{| o_hdr := %s; o_len := %s; o_pad := %s |}" % (common.cbytes(hdr), common.cN(ln), common.cN(pad)))
+        pos += ln
     # backlog values must be the most recent datagrams, byte-identical
     nk = len(ob["keys"])
     blfrom = len(ob["sent"]) - nk
@@ -403,13 +449,17 @@ def gen_cases(ctx):
             return (SEQMOD - rng.randrange(1, 12)) % SEQMOD
         return rng.randrange(SEQMOD)
 
+    # H. the normal path: receiver properties -> get_audio_properties -> open_source(WAV file) -> _stream_data
+    for (ch, ss, nfr) in [(2, 2, 880), (1, 1, 353), (1, 1, 704), (1, 2, 353), (2, 1, 353), (1, 4, 353)]:
+        cases.append(("via-file", default_case(channels=ch, ssize=ss, nframes=nfr, latency=704, via_file=True,
+                                               seq0=SEQMOD - 1)))
     # A. every remainder modulo the packet size, formats and start sequence numbers rotating
     rems = list(range(FPP))
     if not ctx.thorough:
         # quick: all remainders once; thorough: three times with different quotients/formats
         reps = 1
     else:
-        reps = 3
+        reps = 6
     for rep in range(reps):
         for r in rems:
             ch, ss = FORMATS[(r + rep + rng.randrange(6)) % 6]
@@ -428,7 +478,7 @@ def gen_cases(ctx):
     for d in range(-3, 4):
         cases.append(("wrap", default_case(seq0=(SEQMOD + d) % SEQMOD, nframes=880 + d, latency=704)))
     # C. schedules: the source answers late, so the sender compensates with extra packets
-    nC = 60 if not ctx.thorough else 600
+    nC = 150 if not ctx.thorough else 3000
     for i in range(nC):
         ch, ss = rng.choice(FORMATS)
         sr = rng.choice([8000, 44100])
@@ -442,7 +492,7 @@ def gen_cases(ctx):
                                            seq0=rnd_seq0(), latency=rng.choice(lat_small + [2000, 3000]),
                                            pa=rng.randrange(1, 250), pb=rng.randrange(251))))
     # D. early end: transport closing, stop()
-    nD = 30 if not ctx.thorough else 200
+    nD = 60 if not ctx.thorough else 800
     for i in range(nD):
         ch, ss = rng.choice([(1, 2), (2, 2), (2, 4), (2, 1)])
         kw = dict(channels=ch, ssize=ss, nframes=rng.randrange(0, 5 * FPP), seq0=rnd_seq0(),
@@ -455,7 +505,7 @@ def gen_cases(ctx):
             kw["delays"] = {str(rng.randrange(0, 4)): rng.choice([0.02, 0.1])}
         cases.append(("early", default_case(**kw)))
     # E. retransmission: every window over small backlogs, at the end and in mid-stream
-    nE = 8 if not ctx.thorough else 40
+    nE = 16 if not ctx.thorough else 120
     for i in range(nE):
         nfr = rng.randrange(1, 4 * FPP)
         lat = rng.choice([1, 352, 704])
@@ -482,8 +532,13 @@ def gen_cases(ctx):
                 [50, retransmit_req(SEQMOD - 60, 200)], [None, retransmit_req(0, 65535)]]
         cases.append(("real-latency", default_case(sample_rate=sr, latency=22050 + sr, nframes=nfr, seq0=seq0,
                                                    requests=reqs)))
+    # I. boundary probe (outside the domain: latency is 22050 + sample rate in pyatv): the RTP time reaches 2^32
+    #    and the header encoder raises struct.error - ties the model's StructError branch (theorem C16_timestamp_limit)
+    for k in (1, 2):
+        cases.append(("ts-limit", default_case(latency=(1 << 32) - FPP * k - 10, nframes=1500, boundary=True,
+                                               seq0=rng.randrange(SEQMOD))))
     # G. more than 1000 packets: the backlog evicts, requests for evicted and retained packets
-    for extra in ([7] if not ctx.thorough else [0, 1, 7, 300]):
+    for extra in ([7] if not ctx.thorough else [0, 1, 7, 300, 1500]):
         nfr = (1000 + extra) * FPP - 5
         seq0 = SEQMOD - 500
         reqs = [[None, retransmit_req(seq0, 20)],                       # evicted (when extra + padding > 20)
@@ -511,7 +566,7 @@ def small_cases(ctx):
             except Exception as ex:
                 r = "(Raise %s)" % EXN.get(type(ex).__name__, "ZeroDivisionError")
             terms.append("SmSwap %s %s" % (common.cbytes(data), r))
-    for lim in range(0, 6):
+    for lim in range(1, 6):  # the limit is a positive constant in pyatv; limit 0 is outside the domain
         for _ in range(12 if not ctx.thorough else 60):
             ops = [rng.randrange(0, 8) for _ in range(rng.randrange(0, 9))]
             if rng.random() < 0.5:
@@ -590,13 +645,14 @@ def run(ctx):
         errs = oracle(case, ob)
         for key, text in errs:
             ctx.violation(key, text, {"case": case})
-        term, ok = describe(case, ob)
-        if not ok and not errs:
-            ctx.tie_broken("correspondence:canonical-form", json.dumps({"case": case}))
-        terms.append(term)
-        weights.append(len(ob["src"]) + sum(len(d) for d in ob["sent"])
-                       + sum(len(x) for r in ob["reqs"] for x in r["replies"]))
-        meta.append(case)
+        if not case.get("via_file"):
+            term, ok = describe(case, ob)
+            if not ok and not errs:
+                ctx.tie_broken("correspondence:canonical-form", json.dumps({"case": case}))
+            terms.append(term)
+            weights.append(len(ob["src"]) + sum(len(d) for d in ob["sent"])
+                           + sum(len(x) for r in ob["reqs"] for x in r["replies"]))
+            meta.append(case)
         ctx.case(case_key(case), nontrivial=len(ob["sent"]) > 0,
                  sample={"case": {k: v for k, v in case.items() if k != "requests"},
                          "requests": len(case["requests"]), "outcome": ob["outcome"], "datagrams": len(ob["sent"]),
@@ -666,7 +722,7 @@ def run(ctx):
 
 def replay(ctx, path):
     d = json.load(open(path))
-    case = default_case(**d["replay"]["case"])
+    case = default_case(**(d["replay"]["case"] if "replay" in d else d["case"]))
     ob = run_case(case)
     errs = oracle(case, ob)
     print("case=%s" % json.dumps({k: v for k, v in case.items() if k != "requests"}, sort_keys=True))
